@@ -3,6 +3,7 @@ CONSTANTS
   Mode = "tree"
   MCFields = {"time_begin"}
   MCValues = {"a"}
+  MCSub = ""
   MaxSets = 0
   WMax = 6
   TMax = 8
